@@ -4,6 +4,7 @@
 package common
 
 import (
+	"hash/fnv"
 	"bufio"
 	"encoding/json"
 	"fmt"
@@ -193,6 +194,26 @@ func LeanBatch(mode []string, lines []string) ([]string, error) {
 		return nil, fmt.Errorf("lean driver %v: %d lines in, %d lines out", mode, len(lines), len(res))
 	}
 	return res, nil
+}
+
+var fnvPair [2]string
+
+// FnvPair returns two different lock names whose 32-bit FNV-1 hashes (the hash the lock table shards by)
+// are EQUAL: the extreme case of "names that fall into the same shard" - same shard for every shard count.
+func FnvPair() (string, string) {
+	if fnvPair[0] == "" {
+		seen := map[uint32]int{}
+		for i := 0; ; i++ {
+			h := fnv.New32()
+			h.Write([]byte(fmt.Sprintf("job-%d", i)))
+			if j, ok := seen[h.Sum32()]; ok {
+				fnvPair = [2]string{fmt.Sprintf("job-%d", j), fmt.Sprintf("job-%d", i)}
+				break
+			}
+			seen[h.Sum32()] = i
+		}
+	}
+	return fnvPair[0], fnvPair[1]
 }
 
 // ValidateHistories pipes every distinct event history (each ending in its own terminator line) to
